@@ -14,7 +14,7 @@
                      endpoints are atoms of o, arrays rectangular (molecule: o_nconf = 0, no weights). *)
 From Coq Require Import Bool ZArith NArith String List.
 Import ListNotations.
-From Molli Require Import Model.Codec Proofs.Codec Gen.IoWiring.
+From Molli Require Import Model.Codec Proofs.Codec Gen.IoWiring Proofs.CodecIdem.
 Local Open Scope string_scope.
 
 (* the hand-written constants of the model are the regenerated ones *)
@@ -57,6 +57,30 @@ Theorem C01_ens_v1 : forall o, wf_obj true o ->
   roundtrip ens_v1 o = Some (reset_obj_v1 gen_adflt gen_bdflt (mnorm_obj o)).
 Proof. exact (roundtrip_v1 ens_v1 (@eq_refl bool true <: wiring_ok ens_v1 = true) (@eq_refl bool true <: covers_v1 ens_v1 = true)). Qed.
 Print Assumptions C01_ens_v1.
+
+(* ---- one round trip reaches a fixpoint of the codec: what was read back is again a well-formed object and storing
+   it anywhere (the same or another library) and reading it again returns exactly it -- for every object, with no
+   msgpack-stability premise (lists already became tuples, doubles singles, on the first trip).  Consequently any
+   number of copy-through-a-library steps equals one. *)
+Theorem C01_read_back_is_wf : forall ens o, wf_obj ens o -> wf_obj ens (mnorm_obj o).
+Proof. exact wf_obj_mnorm. Qed.
+Print Assumptions C01_read_back_is_wf.
+
+Theorem C01_second_trip_mol_v2 : forall o o1, wf_obj false o ->
+  roundtrip mol_v2 o = Some o1 -> o1 = mnorm_obj o /\ roundtrip mol_v2 o1 = Some o1.
+Proof.
+  intros o o1 Hw E. rewrite (C01_mol_v2 o Hw) in E. injection E as <-. split; [reflexivity|].
+  apply C01_mol_v2_exact; [apply wf_obj_mnorm; exact Hw|apply mnorm_obj_stable].
+Qed.
+Print Assumptions C01_second_trip_mol_v2.
+
+Theorem C01_second_trip_ens_v2 : forall o o1, wf_obj true o ->
+  roundtrip ens_v2 o = Some o1 -> o1 = mnorm_obj o /\ roundtrip ens_v2 o1 = Some o1.
+Proof.
+  intros o o1 Hw E. rewrite (C01_ens_v2 o Hw) in E. injection E as <-. split; [reflexivity|].
+  apply C01_ens_v2_exact; [apply wf_obj_mnorm; exact Hw|apply mnorm_obj_stable].
+Qed.
+Print Assumptions C01_second_trip_ens_v2.
 
 (* ---- nothing else changes: conformer count, the arrays (hence their shapes), atom count, bond sequence/endpoints *)
 Theorem C01_nothing_else : forall o,
